@@ -90,6 +90,13 @@ def run(ctx):
         iface = rng.choice(['-', '-', 'org.i.F', 'org.freedesktop.DBus.Peer'])
         ifp = rng.choice(['-', '-', '-', 'org.i.Plus'])
         label = rng.choice(['foo', 'unconfined', '"@{p_bar}"', 'a-b'])
+        # several quoted values on one directive line (the shipped ones have at most one each)
+        if path != '-' and rng.random() < 0.3:
+            path = '"' + path + '"'
+        if iface != '-' and rng.random() < 0.3:
+            iface = '"' + iface + '"'
+        if ifp != '-' and rng.random() < 0.4:
+            ifp = rng.choice(['"org.i.Plus"', '"org.gtk.vfs.{Daemon,Mount}"'])
         args = ['bus=' + bus, 'name=' + name]
         if action != 'own' or rng.random() < 0.2:
             args.append('label=' + label)
